@@ -1377,7 +1377,7 @@ class Processor:
             for lstidx, ele in enumerate(data):
                 if search_keys:
                     # pylint: disable=locally-disabled,consider-using-ternary
-                    matches = ((is_aoh and term in ele)
+                    matches = ((is_aoh and ele is not None and term in ele)
                         or Searches.search_matches(method, term, ele))
                 elif isinstance(ele, dict) and attr in ele:
                     matches = Searches.search_matches(method, term, ele[attr])
